@@ -343,6 +343,18 @@ def run(ctx):
         cfg.hyper['factor_update_steps'], cfg.hyper['inv_update_steps'] = 1, 1
         cfg.ops = (['f1'] * cfg.accum + ['s']) * 5
         cfgs.append(cfg)
+    # directed corner: pre-divided eigenvalue products with a tiny damping (1e-6) and nearly rank-deficient factors (batch
+    # smaller than the width, quickly decaying identity): 1/(dg*da + damping) reaches ~1e6 — no bound other than the damping
+    for world in (1, 2):
+        cfg = kfacsim.Config(rng, world=world, k=world, method='eigen', colocate=True, prediv=True, nest=False, inv32=False, fac32=False, hook=True, accum=1)
+        cfg.arch = [('lin', 5, 5, True), ('lin', 5, 3, True)]
+        cfg.batch = 2
+        cfg.hyper['damping'] = Fraction(1, 10**6)
+        cfg.hyper['factor_decay'] = Fraction(1, 20)
+        cfg.hyper['kl_clip'] = None
+        cfg.hyper['factor_update_steps'], cfg.hyper['inv_update_steps'] = 1, 1
+        cfg.ops = ['f1', 's'] * 4
+        cfgs.append(cfg)
     kfacsim.run_batch(ctx, cfgs, ('grads',), oracles=(kfacsim.oracle_reference,), whole_only_oracles=False)
 
 
